@@ -74,7 +74,7 @@ def run_functions(index, registry, quals, models, timeout_ms, seed, second=None,
             c = registry[q]
             rec["assumed"] = [a.name + ": " + a.expr + "  (" + getattr(a, "why", "") + ")" for a in c.assume]
             rec["requires"] = [a.name + ": " + a.expr for a in c.requires]
-            missing = [h for h in c.hooks if h not in eng.hooks_fired] + [cut["key"] for k, cut in enumerate(c.cuts) if k not in eng.cuts_fired]
+            missing = [h for h in c.hooks if h not in eng.hooks_fired] + [h for h in c.chooses if ("choose:" + h) not in eng.hooks_fired] + [cut["key"] for k, cut in enumerate(c.cuts) if k not in eng.cuts_fired]
             if missing:
                 rec["status"] = "undecided"
                 rec["error"] = "ghost hook statement(s) not found in the current source: %s" % missing
@@ -272,7 +272,39 @@ def main():
                 native_viol.append((nb, v))
     # classification ----------------------------------------------------------------------------
     kf = [k for k in known_findings() if k["property"] == pid and k.get("status") == "known"]
-    led = set(ledger().get(pid, []))
+    led_full = ledger().get(pid, {})
+    led = set(led_full.get("obligations", {})) if isinstance(led_full, dict) else set(led_full)
+    led_secs = led_full.get("obligations", {}) if isinstance(led_full, dict) else {}
+    led_sites = led_full.get("opaque_sites", {}) if isinstance(led_full, dict) else {}
+    # ledger obligations that came back undecided (timeout / unknown): one more attempt each with a generous budget;
+    # an obligation discharged in the baseline that cannot be re-discharged with >= 100x its baseline time is a failed obligation
+    lost = []
+    if led:
+        from pyvc.solve import retry_alone
+        byname = {o["name"]: (r, o) for r in recs for o in r["obligations"]}
+        todo = [n for n, why in undecided if n in led and n in byname and byname[n][1]["result"] in ("unknown", "error")]
+        if todo:
+            budget = int(min(240000, max(60000, 200 * 1000 * max(led_secs.get(n, 0.5) for n in todo))))
+            rr = retry_alone([byname[n][1]["_smt2"] for n in todo], budget, seed)
+            for n, res in zip(todo, rr):
+                r, o = byname[n]
+                o["retry"] = {"result": res[0], "secs": round(res[3], 1), "budget_ms": budget}
+                new_sites = sorted(set(x.split(" ", 1)[-1] for v in r.get("notes", {}).values() for x in v) - set(led_sites.get(r["function"], [])))
+                if res[0] == "unsat":
+                    o["result"] = "unsat"
+                    undecided = [u for u in undecided if u[0] != n]
+                    dis += 1
+                elif res[0] == "sat":
+                    o["result"], o["model"] = "sat", res[1]
+                    undecided = [u for u in undecided if u[0] != n]
+                    failed.append(o)
+                elif not new_sites:
+                    o["result"] = "sat"
+                    o["reason"] = "proof lost: discharged in %.2fs on the baseline tree, not re-discharged within %d ms (%s)" % (led_secs.get(n, 0), budget, res[2])
+                    o["proof_lost"] = True
+                    undecided = [u for u in undecided if u[0] != n]
+                    failed.append(o)
+                    lost.append(n)
     violations, known_hits, undec_extra = [], [], []
     for o in failed:
         hit = [k for k in kf if k.get("obligation") == o["name"]]
@@ -282,7 +314,8 @@ def main():
         rp = os.path.join(out_dir, "%s-%s.json" % (pid, hashlib.sha1(o["name"].encode()).hexdigest()[:10]))
         rep = {"property": pid, "obligation": o["name"], "kind": o.get("kind"), "top": o.get("top"), "clause": o.get("clause"),
                "where": o.get("where"), "solver": o.get("backend"), "solver_result": "sat (negated goal satisfiable: counter-model below)",
-               "counter_model": o.get("model"), "in_baseline_ledger": o["name"] in led, "failing_input": None}
+               "counter_model": o.get("model"), "solver_reason": o.get("reason"), "proof_lost_without_counter_model": bool(o.get("proof_lost")),
+               "in_baseline_ledger": o["name"] in led, "failing_input": None}
         found = None
         if not a.no_native and P.get("replay"):
             rr = native(P["replay"]["script"], [str(x) for x in P["replay"].get("args", [])] + ["--obligation", o["name"], "--seed", str(seed)],
@@ -341,11 +374,15 @@ def main():
         "wall_s": round(wall, 2),
         "violations": len(violations),
     }
+    for r in recs:
+        for o in r["obligations"]:
+            o.pop("_smt2", None)
     os.makedirs(os.path.join(VERIF, "evidence"), exist_ok=True)
     json.dump(ev, open(os.path.join(VERIF, "evidence", pid + ".json"), "w"), indent=1, default=str)
     if a.write_ledger and not failed and not undecided and not errors:
         L = ledger()
-        L[pid] = sorted(o["name"] for r in recs for o in r["obligations"]) + sorted(e["name"] for e in extra)
+        L[pid] = {"obligations": dict(sorted([(o["name"], o["secs"]) for r in recs for o in r["obligations"]] + [(e["name"], 0.0) for e in extra])),
+                  "opaque_sites": {r["function"]: sorted(set(x.split(" ", 1)[-1] for v in r.get("notes", {}).values() for x in v)) for r in recs}}
         os.makedirs(os.path.join(VERIF, "ledger"), exist_ok=True)
         json.dump(L, open(os.path.join(VERIF, "ledger", "baseline.json"), "w"), indent=1)
     # report ------------------------------------------------------------------------------------
